@@ -86,6 +86,225 @@ def make_models(m, kind, rng):
     raise ValueError(kind)
 
 
+COLS9 = ['lat', 'lon', 'alt', 'VN', 'VE', 'VD', 'roll', 'pitch', 'heading']
+
+
+def close_cov(A, B, rtol=1e-9):
+    A = np.asarray(A, float); B = np.asarray(B, float)
+    if A.shape != B.shape:
+        return False
+    if A.size == 0:
+        return True
+    if not (np.isfinite(A).all() and np.isfinite(B).all()):
+        return False
+    d = np.sqrt(np.abs(np.diag(B)))
+    tol = rtol * np.outer(d, d) + 1e-12 * (d.max() ** 2 if d.size else 0.0)
+    return bool((np.abs(A - B) <= tol).all())
+
+
+def close_vec(a, b, scale, rtol=1e-9):
+    a = np.asarray(a, float); b = np.asarray(b, float)
+    if a.shape != b.shape:
+        return False
+    if a.size == 0:
+        return True
+    if not (np.isfinite(a).all() and np.isfinite(b).all()):
+        return False
+    return bool((np.abs(a - b) <= rtol * (np.abs(b) + np.asarray(scale, float)) + 1e-300).all())
+
+
+class Flow:
+    """Dataflow of the estimation recursion, observed from outside (DESIGN.md s6 C11/C12, FilterDataflow clauses of the trace
+    specifications).  The harness keeps its own copy of what the covariance P and the error vector x MUST be at every moment -
+    the initial covariance built from the public transform_to_internal, every kalman.correct output, Phi P Phi' + Qd (and Phi x)
+    after every propagation - and logs, for every observed call, whether its inputs are that value (bit-identical: refinement;
+    within 1e-9 relative: contract)."""
+
+    def __init__(self, m, kind, alt, gm, am, sds):
+        self.m, self.kind, self.alt = m, kind, bool(alt)
+        self.em = m["error_model"].InsErrorModel(bool(alt))
+        self.ni = self.em.n_states
+        self.gm, self.am = gm, am
+        self.ng = gm.n_states if gm is not None else 0
+        self.na = am.n_states if am is not None else 0
+        self.n = self.ni + self.ng + self.na
+        self.sds = sds
+        self.P = None
+        self.x = np.zeros(self.n)
+        self.ids = {}
+        self.snaps = []
+        self.notes = []
+        self.p0_bit = self.p0_close = None
+        self.first_in_epoch = True
+        self.last_ret = {}
+
+    def note(self, s):
+        if len(self.notes) < 6:
+            self.notes.append(s)
+
+    def iid(self, a):
+        b = np.ascontiguousarray(np.asarray(a, dtype=np.float64)).tobytes() + str(np.shape(a)).encode()
+        return self.ids.setdefault(b, len(self.ids) + 1)
+
+    def start(self, pva):
+        em = self.em
+        pos, vel, lev, az = self.sds
+        Pp = np.zeros((9, 9))
+        for i, v in ((em.DRN, pos), (em.DRE, pos), (em.DRD, pos), (em.DVN, vel), (em.DVE, vel), (em.DVD, vel),
+                     (em.DROLL, lev), (em.DPITCH, lev), (em.DHEADING, az)):
+            Pp[i, i] = v ** 2
+        T = em.transform_to_internal(pva)
+        P = np.zeros((self.n, self.n))
+        P[:self.ni, :self.ni] = T @ Pp @ T.transpose()
+        if self.ng:
+            P[self.ni:self.ni + self.ng, self.ni:self.ni + self.ng] = self.gm.P
+        if self.na:
+            P[self.ni + self.ng:, self.ni + self.ng:] = self.am.P
+        self.P = P
+        self.p0id = self.iid(P)
+
+    def new_epoch(self):
+        self.first_in_epoch = True
+        if self.kind == "fb":
+            self.x = np.zeros(self.n)
+
+    def seen_first_P(self, Pin):
+        if self.p0_bit is None:
+            self.p0_bit = bool(np.shape(Pin) == np.shape(self.P) and np.asarray(Pin, float).tobytes() == self.P.tobytes())
+            self.p0_close = close_cov(Pin, self.P)
+            if not self.p0_close:
+                self.note("initial covariance is not T diag(sd^2) T' (+ sensor-model P blocks) built from transform_to_internal")
+
+    def on_correct(self, sidx, xin, Pin, z, H, R, out):
+        xout, Pout, innov = out
+        if not self.snaps and self.p0_bit is None:
+            self.seen_first_P(Pin)
+        sd = np.sqrt(np.abs(np.diag(self.P))) if self.P is not None and np.shape(self.P)[0] == np.shape(xin)[0] else 0.0
+        c = dict(s=sidx + 1, pin=self.iid(Pin), pout=self.iid(Pout), xin=self.iid(xin), xout=self.iid(xout),
+                 pin_bit=bool(np.asarray(Pin, float).tobytes() == np.asarray(self.P, float).tobytes()),
+                 pin_close=close_cov(Pin, self.P))
+        if self.kind == "fb" and self.first_in_epoch:
+            c["xin_ok"] = bool(np.shape(xin) == (self.n,) and not np.any(xin))
+            c["xin_bit"] = c["xin_ok"]
+        else:
+            c["xin_ok"] = close_vec(xin, self.x, sd)
+            c["xin_bit"] = bool(np.asarray(xin, float).tobytes() == np.asarray(self.x, float).tobytes())
+        ret = self.last_ret.get(sidx)
+        ok = ret is not None
+        if ok:
+            zr, Hr, Rr = ret
+            Hf = np.asarray(H, float)
+            ok = (np.array_equal(np.asarray(z, float), np.asarray(zr, float)) and np.array_equal(np.asarray(R, float), np.asarray(Rr, float))
+                  and Hf.shape == (len(np.asarray(zr)), self.n) and np.array_equal(Hf[:, :self.ni], np.asarray(Hr, float))
+                  and not np.any(Hf[:, self.ni:]))
+        c["args_ok"] = bool(ok)
+        if not c["pin_close"]:
+            self.note("kalman.correct was given a covariance that is not the current one (last correction / propagation result)")
+        if not c["xin_ok"]:
+            self.note("kalman.correct was given an error vector that is not the current one (zeros at the start of a feedback epoch, the last result otherwise)")
+        if not c["args_ok"]:
+            self.note("kalman.correct was not given the (z, H placed in the INS block and zero elsewhere, R) the measurement model returned")
+        self.first_in_epoch = False
+        self.P = np.array(Pout, dtype=float, copy=True)
+        self.x = np.array(xout, dtype=float, copy=True)
+        return c
+
+    def snapshot(self, t):
+        est = []
+        for mdl in (self.gm, self.am):
+            est.append(None if mdl is None else np.asarray(mdl.get_estimates().values, float).copy())
+        self.snaps.append(dict(t=float(t), P=None if self.P is None else self.P.copy(), x=self.x.copy(), est=est, pid=self.iid(self.P)))
+        return self.snaps[-1]["pid"]
+
+    def on_propagate(self, dt, Phi, Qd, T, T2):
+        d = dict(dt_bit=None, dt_ok=None)
+        if T is not None and T2 is not None:
+            want = T2 - T
+            d["dt_bit"] = bool(float(dt) == want)
+            d["dt_ok"] = bool(abs(float(dt) - want) <= 1e-9 * max(1.0, abs(want)))
+            if not d["dt_ok"]:
+                self.note("the covariance was propagated over %r s while the filter advanced from %r to %r" % (float(dt), T, T2))
+        Phi = np.asarray(Phi, float); Qd = np.asarray(Qd, float)
+        if Phi.shape == np.shape(self.P):
+            self.P = Phi @ self.P @ Phi.transpose() + Qd
+            if self.kind == "ff":
+                self.x = Phi @ self.x
+        d["pexp"] = self.iid(self.P)
+        return d
+
+    def on_set_pva(self, before, p):
+        want = self.em.correct_pva(before, self.x[:self.ni])
+        a = np.asarray(p[COLS9].values, float); b = np.asarray(want[COLS9].values, float)
+        bit = bool(a.tobytes() == b.tobytes())
+        d = np.abs(a - b)
+        d[6:] = np.minimum(d[6:] % 360.0, 360.0 - d[6:] % 360.0)
+        tol = np.array([1e-12, 1e-12, 1e-7, 1e-9, 1e-9, 1e-9, 1e-9, 1e-9, 1e-9])
+        ok = bool(np.isfinite(a).all() and (d <= tol * np.maximum(1.0, np.abs(b))).all())
+        if not ok:
+            self.note("set_pva was not given correct_pva(current integrator state, x[INS block]): max deviation %.3g in %s" % (
+                float(np.nanmax(d)), COLS9[int(np.nanargmax(d))]))
+        return bit, ok
+
+    def on_update(self, which, arg):
+        lo = self.ni if which == 0 else self.ni + self.ng
+        hi = self.ni + self.ng if which == 0 else self.n
+        a = np.asarray(arg, float)
+        ok = bool(a.shape == (hi - lo,) and np.array_equal(a, self.x[lo:hi]))
+        if not ok:
+            self.note("update_estimates #%d of the epoch was not given the %s block of the corrected error vector" % (which + 1, "gyro" if which == 0 else "accel"))
+        return ok
+
+    # ---- the returned tables against the snapshots
+    def finish(self, res, traj_for_T, traj_in=None):
+        out = dict(n_snaps=len(self.snaps), sd_ok=True, est_ok=True, comp_ok=True, rows_ok=True)
+        pd = self.m["pd"]
+        sdt = res.trajectory_sd
+        if len(self.snaps) != len(sdt) or [s["t"] for s in self.snaps] != [float(t) for t in sdt.index]:
+            out["rows_ok"] = False           # judged by the index clauses (tables / res_index); nothing to compare row by row
+            return out
+        ni, ng = self.ni, self.ng
+        for k, sn in enumerate(self.snaps):
+            P = sn["P"]
+            if P is None:
+                continue
+            row = traj_for_T.loc[sdt.index[k]]
+            To = self.em.transform_to_output(row)
+            sd = np.sqrt(np.abs(np.diag(To @ P[:ni, :ni] @ To.transpose())))
+            got = np.asarray(sdt.iloc[k].values, float)
+            if not (np.isfinite(got).all() and np.allclose(got, sd, rtol=1e-7, atol=1e-12 * max(1.0, float(sd.max())))):
+                out["sd_ok"] = False
+                self.note("trajectory_sd row at t=%r is not sqrt(diag(T P T')) of the covariance the filter held when it recorded that row" % sn["t"])
+            for name, lo, hi in (("gyro_sd", ni, ni + ng), ("accel_sd", ni + ng, self.n)):
+                got = np.asarray(res[name].iloc[k].values, float)
+                want = np.sqrt(np.abs(np.diag(P[lo:hi, lo:hi])))
+                if not (got.shape == want.shape and np.allclose(got, want, rtol=1e-9, atol=0)):
+                    out["sd_ok"] = False
+                    self.note("%s row at t=%r is not the square root of the covariance diagonal" % (name, sn["t"]))
+            for name, j, lo, hi in (("gyro", 0, ni, ni + ng), ("accel", 1, ni + ng, self.n)):
+                got = np.asarray(res[name].iloc[k].values, float) if res[name].shape[1] else np.zeros(0)
+                want = sn["x"][lo:hi] if self.kind == "ff" else (sn["est"][j] if sn["est"][j] is not None else np.zeros(0))
+                if not (got.shape == np.shape(want) and np.allclose(got, want, rtol=1e-12, atol=0)):
+                    out["est_ok"] = False
+                    self.note("%s row at t=%r is not the sensor estimate the filter held when it recorded that row" % (name, sn["t"]))
+            if self.kind == "ff" and traj_in is not None:
+                e = To @ sn["x"][:ni]                      # estimated error of the computed trajectory, output coordinates
+                a = traj_in.loc[[sdt.index[k]]]
+                b = res.trajectory.loc[[sdt.index[k]]]
+                try:
+                    d = self.m["transform"].compute_state_difference(a.iloc[0], b.iloc[0])
+                    dv = np.asarray(d[['north', 'east', 'down', 'VN', 'VE', 'VD', 'roll', 'pitch', 'heading']].values, float)
+                    # metres <-> degrees at slightly different latitudes / radii: second order in the size of the correction
+                    tol = 1e-6 * np.abs(e) + np.array([1e-6] * 3 + [1e-9] * 3 + [1e-9] * 3)
+                    tol[:3] += float(e[:3] @ e[:3]) / 1e6
+                    if not (np.abs(dv - e) <= tol).all():
+                        out["comp_ok"] = False
+                        self.note("compensated trajectory at t=%r is not (computed trajectory - T x): deviation %s" % (sn["t"], np.round(dv - e, 9).tolist()))
+                except Exception as ex:
+                    out["comp_ok"] = False
+                    self.note("compensation check raised %s" % ex)
+        return out
+
+
 class Recorder:
     def __init__(self, budget_adv, budget_meas):
         self.lines = []
@@ -103,12 +322,18 @@ class Recorder:
             self.n_meas += 1
             if self.n_meas > self.budget_meas:
                 raise Diverged("more measurement epochs processed than the schedule contains")
-            ln = dict(a="M", t=float(time), hits=[], last=-1, widths=[], vd=float(pva['VD']), alt=float(pva['alt']), set=0, upd=0)
+            ln = dict(a="M", t=float(time), hits=[], last=-1, widths=[], vd=float(pva['VD']), alt=float(pva['alt']), set=0, upd=0, c=[])
+            fl = getattr(self, "flow", None)
+            if fl is not None:
+                fl.new_epoch()
             ip = getattr(self, "state", {}).pop("interp", None)
             if ip is not None:
                 ln["row"], ln["nrow"], ln["aok"] = ip[0], ip[1], bool(0.0 <= ip[2] <= 1.0)   # (an epoch one ulp below the next row gives alpha == 1.0 in floats)
             self.lines.append(ln)
         ln["last"] = sidx
+        fl = getattr(self, "flow", None)
+        if fl is not None:
+            fl.last_ret[sidx] = None if ret is None else tuple(np.array(v, dtype=float, copy=True) for v in ret)
         if ret is not None:
             z, H, R = ret
             ln["hits"].append(sidx + 1)
@@ -203,8 +428,10 @@ def run_task(m, task):
     class RecInt(BaseInt):
         def integrate(self, increments):
             t0 = float(self.get_time())
+            fl = state.get("flow")
+            psnap = fl.snapshot(t0) if fl is not None else 0
             out = BaseInt.integrate(self, increments)
-            line = dict(a="A", T=t0, batch=[float(x) for x in increments.index], T2=float(self.get_time()), dt=None)
+            line = dict(a="A", T=t0, batch=[float(x) for x in increments.index], T2=float(self.get_time()), dt=None, psnap=psnap)
             state["last_adv"] = line
             rec.advance(line)
             return out
@@ -217,10 +444,13 @@ def run_task(m, task):
 
         def set_pva(self, p):
             before = self.get_pva()
+            fl = state.get("flow")
+            setflow = fl.on_set_pva(before, p) if fl is not None else (True, True)
             BaseInt.set_pva(self, p)
             ln = rec.lines[-1] if rec.lines else None
             if ln is not None and ln["a"] == "M":
                 ln["set"] += 1
+                ln["set_bit"], ln["set_ok"] = setflow
                 ln["set_alt_same"] = bool(np.float64(p['alt']).tobytes() == np.float64(before['alt']).tobytes())
                 ln["set_vd"] = float(p['VD'])
                 pr = state.get("pred")
@@ -233,25 +463,37 @@ def run_task(m, task):
     orig = dict(correct=kalman.correct, cpm=kalman.compute_process_matrices, Int=strapdown.Integrator)
 
     def correct(x, P, z, H, R):
+        xin = np.array(x, dtype=float, copy=True); Pin = np.array(P, dtype=float, copy=True)
         out = orig["correct"](x, P, z, H, R)
         ln = rec.lines[-1] if rec.lines else None
+        fl = state.get("flow")
         if ln is not None and ln["a"] == "M":
             ln["corr"] = ln.get("corr", 0) + 1
+            if fl is not None:
+                ln["c"].append(fl.on_correct(ln["last"], xin, Pin, z, H, R, out))
         else:
             rec.flags.add("correct_outside_measurement")
         return out
 
     def cpm(F, Q, dt):
+        fl = state.get("flow")
         if kind == "ff":
             ip = state.pop("interp", None)
-            rec.advance(dict(a="A", dt=float(dt), T=ip[0] if ip else None, T2=ip[1] if ip else None))
+            ln = dict(a="A", dt=float(dt), T=ip[0] if ip else None, T2=ip[1] if ip else None)
+            if fl is not None:
+                ln["psnap"] = fl.snapshot(ip[0] if ip else float("nan"))
+            rec.advance(ln)
         else:
             ln = state["last_adv"]
             if ln is not None and ln["dt"] is None:
                 ln["dt"] = float(dt)
             else:
                 rec.flags.add("propagation_without_integrate")
-        return orig["cpm"](F, Q, dt)
+                ln = None
+        out = orig["cpm"](F, Q, dt)
+        if fl is not None and ln is not None:
+            ln.update(fl.on_propagate(dt, out[0], out[1], ln.get("T"), ln.get("T2")))
+        return out
 
     has_interp = hasattr(filters, "_interpolate_pva")
     orig_interp = getattr(filters, "_interpolate_pva", None)
@@ -266,6 +508,9 @@ def run_task(m, task):
     def upd(self, x):
         ln = rec.lines[-1] if rec.lines else None
         if ln is not None and ln["a"] == "M":
+            fl = state.get("flow")
+            if fl is not None and ln["upd"] < 2:
+                ln["upd_ok"] = bool(ln.get("upd_ok", True) and fl.on_update(ln["upd"], x))
             ln["upd"] += 1
         rec.est_updates += 1
         return orig_upd(self, x)
@@ -285,6 +530,9 @@ def run_task(m, task):
         if kind == "fb":
             incs = make_increments(m, start, task["imu"], rng,
                                    index=pd.Index(np.asarray(task["imu"]).astype(np.int64), name='time') if intidx else None)
+            flow = Flow(m, kind, task["alt"], gm, am, (1.0, 0.1, 0.1, 1.0))
+            flow.start(pva)
+            state["flow"] = rec.flow = flow
             res = filters.run_feedback_filter(pva, 1.0, 0.1, 0.1, 1.0, incs, gm, am, meas_arg,
                                               time_step=task["step"], with_altitude=task["alt"])
         else:
@@ -298,6 +546,9 @@ def run_task(m, task):
             incs = make_increments(m, times[0], times[1:], rng) if task.get("inc") else None
             if incs is None and task["models"] in ("full", "asym"):
                 gm, am = make_models(m, "bias", rng)
+            flow = Flow(m, kind, task["alt"], gm, am, (1.0, 0.1, 0.1, 1.0))
+            flow.start(nominal.iloc[0])
+            state["flow"] = rec.flow = flow
             res = filters.run_feedforward_filter(nominal, traj, 1.0, 0.1, 0.1, 1.0, gm, am, meas_arg, incs,
                                                  time_step=task["step"], with_altitude=task["alt"])
     except Diverged as e:
@@ -338,6 +589,14 @@ def run_task(m, task):
             obs["vd_zero"] = bool((tr['VD'].values.view(np.int64) == traj.loc[tr.index, 'VD'].values.view(np.int64)).all())
             obs["alt_frozen"] = bool((tr['alt'].values.view(np.int64) == traj.loc[tr.index, 'alt'].values.view(np.int64)).all()) \
                 if set(tr.index) <= set(traj.index) else False
+    flow = state.get("flow")
+    if res is not None and flow is not None:
+        try:
+            fin = flow.finish(res, res.trajectory if kind == "fb" else nominal, None if kind == "fb" else traj)
+        except Exception as e:
+            fin = dict(n_snaps=len(flow.snaps), sd_ok=False, est_ok=False, comp_ok=False, rows_ok=True)
+            flow.note("result comparison raised %s: %s" % (type(e).__name__, str(e)[:120]))
+        obs["flow"] = dict(fin, p0id=flow.p0id, p0_bit=flow.p0_bit, p0_ok=flow.p0_close, notes=flow.notes)
     return dict(task=task, events=rec.lines, obs=obs)
 
 
@@ -347,6 +606,13 @@ def run_task(m, task):
 def horizons(points, step):
     """float(t) + time_step exactly as the code computes it (np.float64 + python float)."""
     return [float(np.float64(t) + step) for t in points]
+
+
+def _flow_obs(f):
+    if not f:
+        return dict(on=False, p0id=0, p0_ok=True, p0_bit=True, sd_ok=True, est_ok=True, comp_ok=True, rows_ok=True)
+    return dict(on=True, p0id=int(f["p0id"]), p0_ok=f["p0_ok"] is not False, p0_bit=f["p0_bit"] is not False, sd_ok=bool(f["sd_ok"]),
+                est_ok=bool(f["est_ok"]), comp_ok=bool(f["comp_ok"]), rows_ok=bool(f["rows_ok"]))
 
 
 def abstract_record(rec, tid):
@@ -387,13 +653,18 @@ def abstract_record(rec, tid):
                            vd0=bool(ln["vd"] == 0.0), setvd0=bool(ln.get("set_vd", 0.0) == 0.0), altsame=bool(ln.get("set_alt_same", True)),
                            row=R(ln["row"]) if ln.get("row") is not None else 0, nrow=R(ln["nrow"]) if ln.get("nrow") is not None else 0,
                            aok=bool(ln.get("aok", True)),
-                           w=[w[0] for w in ln["widths"]], wok=all(w[0] == w[1] == w[2] == w[3] for w in ln["widths"])))
+                           w=[w[0] for w in ln["widths"]], wok=all(w[0] == w[1] == w[2] == w[3] for w in ln["widths"]),
+                           c=[dict(s=c["s"], pin=c["pin"], pout=c["pout"], xin=c["xin"], xout=c["xout"], pin_bit=c["pin_bit"], pin_ok=c["pin_close"],
+                                   xin_ok=c["xin_ok"], xin_bit=c["xin_bit"], args_ok=c["args_ok"]) for c in ln.get("c", [])],
+                           set_ok=bool(ln.get("set_ok", True)), set_bit=bool(ln.get("set_bit", True)), upd_ok=bool(ln.get("upd_ok", True))))
         elif kind == "fb":
             ev.append(dict(a="A", T=R(ln["T"]), batch=[R(x) for x in ln["batch"]], T2=R(ln["T2"]),
-                           dpos=bool(ln["dt"] is not None and ln["dt"] > 0)))
+                           dpos=bool(ln["dt"] is not None and ln["dt"] > 0),
+                           psnap=int(ln.get("psnap", 0)), pexp=int(ln.get("pexp", 0)), dt_ok=ln.get("dt_ok") is not False, dt_bit=ln.get("dt_bit") is not False))
         else:
             ev.append(dict(a="A", dpos=bool(ln["dt"] > 0), T=R(ln["T"]) if ln.get("T") is not None else 0,
-                           T2=R(ln["T2"]) if ln.get("T2") is not None else 0))
+                           T2=R(ln["T2"]) if ln.get("T2") is not None else 0,
+                           psnap=int(ln.get("psnap", 0)), pexp=int(ln.get("pexp", 0)), dt_ok=ln.get("dt_ok") is not False, dt_bit=ln.get("dt_bit") is not False))
     out["events"] = ev
     if obs.get("returned"):
         out["obs"] = dict(traj=[R(x) for x in obs["traj"]], tables=[[R(x) for x in tb] for tb in obs["tables"]],
@@ -401,10 +672,11 @@ def abstract_record(rec, tid):
                           innov_missing=[iv is None for iv in obs["innov"]], innov_w=obs["innov_w"],
                           finite=bool(obs["finite"]), vd_zero=bool(obs["vd_zero"]), alt_frozen=bool(obs["alt_frozen"]),
                           sd_zero=bool(obs["sd_down_vd_zero"]), flags=obs["flags"], resets=obs["resets"],
-                          plain_eq=bool(obs.get("plain_eq", True)), keys_ok=bool(obs["innov_keys"] == sorted(c for c, _ in task["meas"])))
+                          plain_eq=bool(obs.get("plain_eq", True)), keys_ok=bool(obs["innov_keys"] == sorted(c for c, _ in task["meas"])),
+                          flow=_flow_obs(obs.get("flow")))
     else:
         out["obs"] = dict(traj=[], tables=[[], [], [], [], []], innov=[[] for _ in task["meas"]],
                           innov_missing=[False for _ in task["meas"]], innov_w=[0 for _ in task["meas"]],
                           finite=False, vd_zero=False, alt_frozen=False, sd_zero=False, flags=obs.get("flags", []), resets=0,
-                          plain_eq=False, keys_ok=False)
+                          plain_eq=False, keys_ok=False, flow=_flow_obs(None))
     return out
